@@ -58,6 +58,8 @@ def build(t, env):
             return float(t["$f"])
         if "$dt" in t:
             return dt.datetime.fromtimestamp(t["$dt"] / 1e6, tz=dt.timezone.utc)
+        if "$dtz" in t:
+            return build_dt(t["$dtz"])
         if "$tuple" in t:
             return tuple(build(x, env) for x in t["$tuple"])
         raise ValueError("bad tree node %r" % (t,))
@@ -65,6 +67,15 @@ def build(t, env):
 
 
 CUSTOM = {}
+WATCHED = {}
+
+
+def snap_watched():
+    """registration-time arguments: lists of names / of (name, Property) pairs"""
+    out = {}
+    for k, v in WATCHED.items():
+        out[k] = json.dumps([[x[0], type(x[1]).__name__] if isinstance(x, tuple) else x for x in v], default=str)
+    return out
 CUSTOM_EXT_CLASSES = []
 CUSTOM_EXT = {
     "VerifObj": "extension-definition--0c9d6f0e-5a4b-4f7e-9d25-11a0c13c0001",
@@ -87,6 +98,11 @@ def register_custom():
         return [("name", P.StringProperty(required=True)), ("items", P.ListProperty(P.StringProperty)),
                 ("meta", P.DictionaryProperty(spec_version="2.1"))]
 
+    def watch(name, value):
+        """containers handed to the library at REGISTRATION time are the caller's too"""
+        WATCHED[name] = value
+        return value
+
     @CustomObject("x-verif-obj", props(), extension_name=CUSTOM_EXT["VerifObj"])
     class VerifObj(object):
         pass
@@ -95,18 +111,50 @@ def register_custom():
     class VerifObj2(object):
         pass
 
-    @CustomObservable("x-verif-sco", props(), ["name"], extension_name=CUSTOM_EXT["VerifSco"])
+    @CustomObservable("x-verif-sco", watch("VerifSco.properties", props()), watch("VerifSco.id_contrib_props", ["name"]),
+                      extension_name=CUSTOM_EXT["VerifSco"])
     class VerifSco(object):
         pass
 
-    @CustomObject("x-verif-plain", props())
+    # an observable type that carries the versioning properties (so that new_version applies to it)
+    @CustomObservable("x-verif-vsco",
+                      watch("VerifVSco.properties",
+                            props() + [("created", P.TimestampProperty()), ("modified", P.TimestampProperty()),
+                                       ("revoked", P.BooleanProperty(default=lambda: False))]),
+                      watch("VerifVSco.id_contrib_props", ["name"]))
+    class VerifVSco(object):
+        pass
+
+    @CustomObject("x-verif-plain", watch("VerifPlain.properties", props()))
     class VerifPlain(object):
         pass
 
-    CUSTOM.update({"VerifObj": VerifObj, "VerifObj2": VerifObj2, "VerifSco": VerifSco, "VerifPlain": VerifPlain})
+    CUSTOM.update({"VerifObj": VerifObj, "VerifObj2": VerifObj2, "VerifSco": VerifSco, "VerifPlain": VerifPlain,
+                   "VerifVSco": VerifVSco})
     import stix2.registry as R
     for ext_id in CUSTOM_EXT.values():
         CUSTOM_EXT_CLASSES.append(R.class_for_type(ext_id, "2.1", "extensions"))
+
+
+def build_dt(d):
+    """a datetime given by the caller: naive / UTC / fixed offset / a real zone (fold matters in the
+    repeated hour), optionally as the library's STIXdatetime with a precision"""
+    tz = d.get("tz")
+    if tz is None:
+        tzinfo = None
+    elif tz == "UTC":
+        tzinfo = dt.timezone.utc
+    elif tz.startswith("fixed:"):
+        tzinfo = dt.timezone(dt.timedelta(minutes=int(tz[6:])))
+    else:
+        import zoneinfo
+        tzinfo = zoneinfo.ZoneInfo(tz)
+    v = dt.datetime(*d["ymdhmsu"], tzinfo=tzinfo, fold=d.get("fold", 0))
+    if d.get("stix"):
+        from stix2.utils import STIXdatetime
+        kw = {"precision": d["precision"]} if d.get("precision") else {}
+        v = STIXdatetime(v, **kw)
+    return v
 
 
 def cls_of(name):
@@ -340,7 +388,8 @@ def snap(x, depth=0):
         return ["o", type(x).__module__ + "." + type(x).__name__, snap(x._inner, depth + 1), ser,
                 [[a, snap(vars(x)[a], depth + 1)] for a in attrs]]
     if isinstance(x, dt.datetime):
-        return ["dt", x.isoformat(), str(getattr(x, "precision", None)), str(getattr(x, "precision_constraint", None))]
+        return ["dt", x.isoformat(), x.fold, str(x.utcoffset()), type(x).__name__,
+                str(getattr(x, "precision", None)), str(getattr(x, "precision_constraint", None))]
     if isinstance(x, (stix2.MemoryStore, stix2.MemorySink, stix2.MemorySource)):
         return ["mem", snap_memdata(x._data, depth + 1)]
     if isinstance(x, (stix2.FileSystemStore, stix2.FileSystemSink, stix2.FileSystemSource)):
@@ -502,6 +551,13 @@ def run_op(op, env, extra):
         return cls(*args, allow_custom=op.get("allow_custom", False), **kw), extra, ()
     if o == "parse":
         return stix2.parse(env[op["arg"]], allow_custom=op.get("allow_custom", False), version=op.get("version")), extra, ()
+    if o == "parse_file":
+        import io
+        return stix2.parse(io.StringIO(json.dumps(env[op["arg"]])), allow_custom=op.get("allow_custom", False),
+                           version=op.get("version")), extra, ()
+    if o == "bundle_dict":
+        # a bundle given as a plain dict around caller-held members
+        return {"type": "bundle", "id": op["id"], "objects": env[op["arg"]]}, extra, ()
     if o == "parse_text":
         text = json.dumps(env[op["arg"]])
         return stix2.parse(text, allow_custom=op.get("allow_custom", False), version=op.get("version")), extra, ()
@@ -521,6 +577,7 @@ def run_op(op, env, extra):
         extra["unshared"] = not common
         extra["common"] = common[:5]
         extra["same_snap"] = snap_cmp(a, c)
+        extra["same_instants"] = instants(a) == instants(c)
         return c, extra, ()
     if o == "copy":
         return copy.copy(env[op["arg"]]), extra, ()
@@ -710,6 +767,27 @@ def canon_ser(t):
     return t
 
 
+def instants(x, path="", depth=0, out=None):
+    """every datetime reachable from x as (path, UTC instant or naive text, fold): two equal values
+    denote the same instants"""
+    if out is None:
+        out = []
+    if depth > 60:
+        return out
+    if isinstance(x, dt.datetime):
+        when = x.astimezone(dt.timezone.utc).isoformat() if x.tzinfo is not None else "naive " + x.isoformat()
+        out.append([path, when, x.fold])
+    elif isinstance(x, dict):
+        for k in sorted(x, key=str):
+            instants(x[k], path + "/" + str(k), depth + 1, out)
+    elif isinstance(x, (list, tuple)):
+        for i, v in enumerate(x):
+            instants(v, path + "/" + str(i), depth + 1, out)
+    elif isinstance(x, _STIXBase):
+        instants(x._inner, path, depth + 1, out)
+    return out
+
+
 def snap_cmp(a, c):
     """deep value of the copy equals deep value of the original, as values:
     member order of dicts and of serialized objects is ignored"""
@@ -787,6 +865,7 @@ def run_case(case):
     for k, op in enumerate(case["ops"]):
         names, keep = names_before(env)
         before = [json.dumps(snap(e), sort_keys=True, default=str) for e in env]
+        watched_before = snap_watched()
         before_raw = [snap(e) for e in env] if case.get("explain") else None
         sizes = [count_nodes(e) for e in env]
         exc = None
@@ -817,7 +896,11 @@ def run_case(case):
             if op["op"] == "env_add" and env[op["env"]] is not None:
                 exempt = sharing_store(env, env[op["env"]])
         after = [json.dumps(snap(e), sort_keys=True, default=str) for e in env]
+        watched_after = snap_watched()
         mut = []
+        for k in watched_before:
+            if watched_before[k] != watched_after.get(k):
+                mut.append({"env": "registration:" + k, "where": "%s -> %s" % (watched_before[k][:120], watched_after.get(k, "")[:120])})
         for i, (b, a) in enumerate(zip(before, after)):
             if b != a and i not in exempt:
                 d = {"env": i}
